@@ -279,6 +279,12 @@ func runC10(cs *vrt.Case) {
 		for i := r.Range(3, 8); i > 0; i-- {
 			counts = append(counts, c10Counts[r.Intn(len(c10Counts))])
 		}
+		if cs.Idx%16 == 7 {
+			// one request larger than anything the pool ever holds at once (more
+			// than 4224 words): it has to be served across several refills
+			counts = append(counts, r.Range(275000, 420000))
+			cs.Count("triple_requests_larger_than_the_pool", 1)
+		}
 		desc["counts"] = counts
 	}
 	type pres struct {
